@@ -123,12 +123,15 @@ fn build(kind: usize) -> Box<dyn Subject> {
 thread_local! {
     static POINTS: Cell<u64> = const { Cell::new(0) };
     static COUNTING: Cell<bool> = const { Cell::new(false) };
+    static EXPLORING: Cell<bool> = const { Cell::new(false) };
 }
 
 fn sched_hook(_l: &'static str) {
     if COUNTING.with(|c| c.get()) {
         POINTS.with(|c| c.set(c.get() + 1));
-    } else {
+    } else if EXPLORING.with(|c| c.get()) {
+        // (only on the OS thread that runs executions: threads the crate may start itself are
+        // outside the scheduler and must not call into it)
         shuttle::thread::yield_now();
     }
 }
@@ -164,6 +167,7 @@ fn main() {
     let pts: Arc<Mutex<Vec<Vec<u64>>>> = Arc::new(Mutex::new(vec![vec![0; 7]; KINDS.len()]));
     {
         let pts = pts.clone();
+        EXPLORING.with(|c| c.set(true));
         shuttle::check_dfs(
             move || {
                 COUNTING.with(|c| c.set(true));
@@ -257,15 +261,25 @@ fn main() {
             let canon = canon.clone();
             let kind = p.kind;
             let used: Vec<usize> = p.threads.iter().flatten().cloned().collect();
-            shuttle::check_dfs(
-                move || {
-                    for &o in &used {
-                        let v = build(kind).op(o);
-                        canon.lock().unwrap()[o] = Some(v);
-                    }
-                },
-                None,
-            );
+            let r = std::panic::catch_unwind(std::panic::AssertUnwindSafe(|| {
+                shuttle::check_dfs(
+                    move || {
+                        for &o in &used {
+                            let v = build(kind).op(o);
+                            canon.lock().unwrap()[o] = Some(v);
+                        }
+                    },
+                    None,
+                )
+            }));
+            if r.is_err() {
+                // an op of the alphabet never panics on a fresh interpolator: it does so here because of
+                // what earlier interpolators on this OS thread left behind
+                nprog.fetch_add(1, AO::SeqCst);
+                nviol.fetch_add(1, AO::SeqCst);
+                println!("C17S-VIOLATION key={key} what={}: an op of the program panicked when run alone on a freshly built interpolator (after other interpolators had been used on the same OS thread)", KINDS[p.kind]);
+                return;
+            }
         }
         let canon = canon.lock().unwrap().clone();
         let first_bad: Arc<Mutex<Option<String>>> = Arc::new(Mutex::new(None));
@@ -315,6 +329,7 @@ fn main() {
     std::thread::scope(|sc| {
         for _ in 0..workers {
             sc.spawn(|| loop {
+                EXPLORING.with(|c| c.set(true));
                 let i = next.fetch_add(1, AO::SeqCst);
                 if i >= programs.len() {
                     break;
